@@ -229,3 +229,8 @@ func Observe(label string, v interface{}) {}
 
 // SameObject reports whether two pointers are the same object.
 func SameObject(a, b interface{}) bool { return a == b }
+
+// AllocReset / AllocMax expose the largest make/append capacity seen by the
+// symbolic executor since the last reset (natively: not measured).
+func AllocReset()   {}
+func AllocMax() int { return 0 }
